@@ -278,3 +278,48 @@ func genPairing(o *out) {
 	}
 	o.def("json_chunk_size", "nat", chunk)
 }
+
+func init() { generators = append(generators, genJSONTags) }
+
+// jsonTags lists "Field=tag" for the fields of a struct type, in declaration order
+func jsonTags(f *ast.File, typeName string) []string {
+	var out []string
+	if f == nil {
+		return out
+	}
+	for _, d := range f.Decls {
+		gd, ok := d.(*ast.GenDecl)
+		if !ok || gd.Tok != token.TYPE {
+			continue
+		}
+		for _, sp := range gd.Specs {
+			ts := sp.(*ast.TypeSpec)
+			st, ok := ts.Type.(*ast.StructType)
+			if !ok || ts.Name.Name != typeName {
+				continue
+			}
+			for _, fld := range st.Fields.List {
+				if fld.Tag == nil || len(fld.Names) == 0 {
+					continue
+				}
+				raw, _ := strconv.Unquote(fld.Tag.Value)
+				i := strings.Index(raw, `json:"`)
+				if i < 0 {
+					continue
+				}
+				rest := raw[i+6:]
+				tag := rest[:strings.Index(rest, `"`)]
+				out = append(out, fld.Names[0].Name+"="+tag)
+			}
+		}
+	}
+	return out
+}
+
+func genJSONTags(o *out) {
+	o.comment("JSON field tags of the attribute database")
+	o.def("json_characteristic", "list (list N)", coqStrList(jsonTags(parseFile("characteristic/characteristic.go"), "Characteristic")))
+	o.def("json_service", "list (list N)", coqStrList(jsonTags(parseFile("service/service.go"), "servicePayload")))
+	o.def("json_accessory", "list (list N)", coqStrList(jsonTags(parseFile("accessory/accessory.go"), "Accessory")))
+	o.def("json_container", "list (list N)", coqStrList(jsonTags(parseFile("accessory/container.go"), "Container")))
+}
